@@ -43,3 +43,24 @@ Proof. exact optimize_inline_barrier. Qed.
 Example C18_keeps_marked_needs_hypothesis :
   marked (fst (optimize cx_marked_cmp)) <> marked cx_marked_cmp.
 Proof. vm_compute. discriminate. Qed.
+
+(** * inlining *)
+From CC Require Import Model.InlineRename Proofs.InlineFacts.
+
+(** inlining keeps the [protected] flag (and the mnemonic, cycles and size) of every instruction
+    of the inlined body: a protected branch/JMP of the body is still protected in the expansion
+    (only its operand text gets the suffix) *)
+Theorem C18_inline_keeps_protection : forall (n : N) (i : instr),
+  exists i', rename_line n (Ins i) = Ins i' /\ i_mn i' = i_mn i /\ i_prot i' = i_prot i /\
+             i_cycles i' = i_cycles i /\ i_alt i' = i_alt i /\ i_bytes i' = i_bytes i /\
+             i_op i' = if renames_operand (i_mn i) then suffix_of n (i_op i) else i_op i.
+Proof. exact rename_ins_shape. Qed.
+
+Theorem C18_inline_keeps_is_marked : forall (n : N) (l : line),
+  is_marked (rename_line n l) = is_marked l.
+Proof. exact rename_is_marked. Qed.
+
+(** inlining neither removes, duplicates nor reorders protected instructions and inline assembly *)
+Theorem C18_inline_keeps_marked : forall (dst body : code) (n : N),
+  marked (push_code dst body n) = marked dst ++ map (rename_line n) (marked body).
+Proof. exact push_code_marked. Qed.
